@@ -230,6 +230,35 @@ pub fn run(ctx: &Ctx, rep: &mut Report) {
             let mut bad: Option<(String, String)> = None;
             let mut changed_len = false;
             for _ in 0..n_batches {
+                if rng.chance(1, 8) {
+                    // a batch whose callback queues edits and then reports an error: nothing may be applied, now or later
+                    let junk = gen_batch(&mut rng, &model);
+                    let r = guard(|| {
+                        buf.with_editor(|_b, mut e| {
+                            for ed in &junk {
+                                e.replace_own(ed.start..ed.end, ed.with.clone());
+                            }
+                            let _ = e;
+                            Err(sudachi::error::SudachiError::NoOOVPluginProvided)
+                        })
+                    });
+                    rep.count("rejected_batches", 1);
+                    match r {
+                        Ok(Err(_)) => {}
+                        Ok(Ok(())) => {
+                            bad = Some(("edit_error".into(), "a batch whose callback failed was reported as success".into()));
+                            break;
+                        }
+                        Err(p) => {
+                            bad = Some(("edit_panic".into(), format!("{} at {}", p.msg, p.site)));
+                            break;
+                        }
+                    }
+                    if let Ok(Err(m)) = guard(|| check_map(&original, &buf, &model)) {
+                        bad = Some(("offset_map".into(), format!("after a rejected batch: {}", m)));
+                        break;
+                    }
+                }
                 let edits = gen_batch(&mut rng, &model);
                 let next = apply_model(&model, &edits);
                 if next.is_empty() {
